@@ -83,6 +83,7 @@ type Engine struct {
 	unwindIn                 map[*ssa.Function]int
 	curRange                 *ssa.Range
 	poolPrivate              map[*Value]Value
+	syncMaps                 map[*Value]*MapV
 	orderFree                map[*ssa.Range]bool
 }
 
